@@ -19,9 +19,9 @@ CHECKS = {
     "C07": ("model_checking", "3.3, 6/C07", "TLC invariants FallbackTable/NoFabrication on Mock.tla; the complete decision table replayed on the universe methods",
             "The decision table is finite and enumerated completely (strict/partial x unmentioned/unmatched/matched x default/unmock/both/neither x any/ord x position); outcomes (default body ran / real function ran / panic class) and untouched counters are compared with the real code."),
     "C08": ("model_checking", "3.3, 6/C08", "TLC invariant ErrorsRemembered on Mock.tla; every error kind and user panics replayed, final verify() message compared with the observed panic texts",
-            "Every mock-induced error class at every position of short histories, interleaved with user panics that must not be recorded; the verification message must contain each observed error text in order. (Threads and crash points: see the Conc/Lifecycle engines when claimed.)"),
+            "Three engines: (1) every mock-induced error class at every position of short histories with user panics that must not be recorded, the verification message must contain each observed error text in order; (2) errors on the original vs a clone, on the creator thread vs another, caught or not, followed by verify()/report()/drop on the original (Lifecycle.tla); (3) several threads erring concurrently under every schedule, AllErrorsRecorded by trace validation."),
     "C12": ("model_checking", "3.3, 6/C12", "TLC invariant SingleDelivery on Mock.tla; clone/drop counters of every configured value compared after teardown",
-            "Sequential histories of 0..N requests for single-use and repeat-use values on the original and over clones: exactly one delivery, later requests panic, each value constructed once, cloned once per delivery (never for single-use) and dropped exactly once per copy."),
+            "Three engines: (1) sequential histories of 0..N requests for single-use and repeat-use values on the original and over clones with clone/drop conservation; (2) owned leaves inside Option/Result/Vec/Poll/tuple composites (Shapes.tla cases as generated programs); (3) 2-4 threads racing for the value under every schedule and free-running, SingleDelivery by trace validation. (Compile-time refusal of multi-use quantifiers on non-Clone values: see C14's compile-fail chains.)"),
     "C15": ("model_checking", "3.3, 6/C15", "Mock.tla default-body frames (scripts of nested required-method calls) enumerated by TLC and replayed through the real default bodies",
             "Default bodies run through the real delegation helper; nested required calls must hit the same counters, ordered slots and responses as the model's shared state predicts, mixed with direct calls; &self receivers in this engine."),
     "C16": ("model_checking", "3.3, 6/C16", "Mock.tla real-function frames (re-entrant scripts) enumerated by TLC and replayed through the functions registered with unmock_with",
@@ -36,10 +36,15 @@ CHECKS = {
             "One expectation from the model for the whole equivalence class: TLC chooses configuration, admissible permutation and history; the real mock is built in the permuted order and driven (a) directly, (b) with calls routed over clones, (c) in lock-step on two independent mocks."),
     "C10": ("model_checking", "3.5, 4.4, 6/C10", "Conc.tla interleavings by TLC (DistinctPositions, VerdictIsSequential; split-counter sensitivity) + all schedules of the real library at its yield points, each execution validated against ConcTrace.tla",
             "The specification is checked for every interleaving of the four linearization points; the implementation is driven through every schedule of small programs by a baton scheduler on the hooked atomics/locks, through random schedules of larger programs, and free-running; acceptance of each execution by the trace specification (TLC infers the unlogged internal steps) is the oracle."),
+    "C17": ("exploration", "3.7, 6/C17", "Shapes.tla Store/Output vs statement (TwoDefinitionsAgree) by TLC; TLC-enumerated (type, path, value) cases rendered to #[unimock] traits, built and run against /repo",
+            "Model-derived exhaustive case generation inside a stated grammar of return types (Option/Result/Vec/Poll/tuples x owned, non-Clone, &T, &str, &'static): every variant and element count up to the bound, single-use and repeat-use paths, three calls each, address stability of borrowed leaves."),
 }
 
 NOT_YET = {
 }
+
+GENPROG = ("C05", "C06", "C14", "C17", "C19", "C20")
+
 
 def main():
     checks = []
@@ -50,7 +55,7 @@ def main():
             "thorough_cmd": "bin/check %s --tier thorough" % pid,
             "evidence_file": "evidence/%s.json" % pid,
             "replay_cmd_template": "bin/check %s --replay {path}" % pid,
-            "engine": "tla-lifecycle" if pid in ("C09", "C11", "C13") else ("tla-conc-trace" if pid in ("C10",) else "tla-replay"),
+            "engine": "tla-lifecycle" if pid in ("C09", "C11", "C13") else ("tla-conc-trace" if pid in ("C10",) else ("tla-genprog" if pid in GENPROG else "tla-replay")),
             "level_claimed": {"category": cat, "text": text, "design_ref": "DESIGN.md section " + ref},
             "level_note": MC_NOTE,
             "technique": tech,
@@ -70,6 +75,9 @@ def main():
             "add_only": True,
         },
         "engines": [
+            {"name": "tla-genprog", "path": "tla/Shapes.tla, tla/MC_Shapes.tla, lib/gen.py, lib/gen_*.py, gen/prelude.rs",
+             "serves_properties": ["C17", "C12"],
+             "kind_free_text": "TLC enumerates cases of a shape grammar with their expected observation; Python renders them to Rust programs built against /repo; observations are compared with the model's expectation"},
             {"name": "tla-conc-trace", "path": "tla/Conc.tla, tla/MC_Conc.tla, tla/ConcTrace.tla, harness/src/conc.rs, lib/engines.py",
              "serves_properties": ["C10"],
              "kind_free_text": "exhaustive interleavings of the specification; controlled scheduler (all schedules) and stress on the real code with trace validation by TLC"},
@@ -77,7 +85,7 @@ def main():
              "serves_properties": ["C09", "C11", "C13"],
              "kind_free_text": "TLC enumerates lifecycle event sequences (instances, threads, unwinding, value chains); the harness executes them on real instances across two OS threads; process aborts are detected by the driver"},
             {"name": "tla-replay", "path": "tla/Mock.tla, tla/MC_Mock.tla, harness/src/replay.rs, lib/engines.py",
-             "serves_properties": sorted(k for k in CHECKS.keys() if k not in ("C09", "C10", "C11", "C13")),
+             "serves_properties": sorted(k for k in CHECKS.keys() if k not in ("C09", "C10", "C11", "C13") and k not in GENPROG),
              "kind_free_text": "TLC enumerates complete behaviours of the specification (configuration x history) and prints them; the Rust harness builds the real mock through the real builder API and compares every step"},
         ],
         "checks": checks,
